@@ -139,7 +139,7 @@ func unfoldAlias(c *simkit.Choices, x *simkit.Ctx) *simkit.Violation {
 				err = e
 				return
 			}
-			err = cd.Parse(append([]byte{}, d...), u)
+			err = cd.Parse(simkit.Exact(d), u)
 			val = model.DeepCopy(get())
 		})
 		if pi != nil || err != nil {
@@ -192,9 +192,9 @@ func unfoldAlias(c *simkit.Choices, x *simkit.Ctx) *simkit.Violation {
 		case "write":
 			parser = cd.NewParser(tap)
 		case "decoder-reader":
-			dec = cd.NewDecoder(&simkit.Reader{Data: append([]byte{}, stream...), Sizes: sc.Reads, Clock: &x.Clock}, sc.BufSize, tap)
+			dec = cd.NewDecoder(&simkit.Reader{Data: simkit.Exact(stream), Sizes: sc.Reads, Clock: &x.Clock}, sc.BufSize, tap)
 		case "decoder-bytes":
-			stream = append([]byte{}, stream...)
+			stream = simkit.Exact(stream)
 			dec = cd.NewBytesDecoder(stream, tap)
 		}
 		off := 0
@@ -211,7 +211,7 @@ func unfoldAlias(c *simkit.Choices, x *simkit.Ctx) *simkit.Violation {
 			case "write":
 				_, runErr = simkit.Feed(parser, d, sc.Cuts[i], true, &x.Clock)
 			case "parse":
-				buf := append([]byte{}, d...)
+				buf := simkit.Exact(d)
 				runErr = cd.Parse(buf, tap)
 				scribble(buf)
 			case "parsestring":
@@ -219,7 +219,7 @@ func unfoldAlias(c *simkit.Choices, x *simkit.Ctx) *simkit.Violation {
 				// the parser's internal buffers are still reused
 				runErr = cd.ParseString(string(d), tap)
 			case "reader":
-				buf := append([]byte{}, d...)
+				buf := simkit.Exact(d)
 				_, runErr = cd.ParseReader(&simkit.Reader{Data: buf, Sizes: sc.Reads, Clock: &x.Clock}, tap)
 				scribble(buf)
 			case "decoder-reader":
